@@ -13,7 +13,7 @@ PROP = "C15"
 RULE = (
     "subcheck 'labels': {T_HOO, HCT, VHCT, Zooming, POO, GPO, PCT, VPCT, DOO, SOO, SequOOL, VROOM} x partition x box x seed x reward law; "
     "the run labelled 1..T is compared with the same run labelled t0+i for t0 in {0, 17, -3, 10^6} and with arbitrary strictly "
-    "increasing labels: point sequences and recommendation must be identical. subcheck 'queries': a Hypothesis RuleBasedStateMachine "
+    "increasing labels (as Python ints, NumPy integers or floats): point sequences and recommendation must be identical. subcheck 'queries': a Hypothesis RuleBasedStateMachine "
     "over one instance of {T_HOO, HCT, VHCT, Zooming, POO} with rules step() and query() (= get_last_point(), 1-5 times in a row, at "
     "Hypothesis-chosen rounds), plus subcheck 'dense-queries' with a query before (almost) every round of a generated run; the point "
     "sequence must equal that of the run without queries. Rewards are point-dependent so that "
